@@ -107,12 +107,12 @@ func glueLocal(r *Rng, n int, st *Stats) {
 		out, err2 := exec.Command("node", filepath.Join(dir, "out", "entry.js")).Output()
 		os.RemoveAll(dir)
 		if err1 != nil || err2 != nil {
-			st.Fail("local-names-build-shape", desc, fmt.Sprint(err1, err2), "entry.css and a runnable entry.js")
+			failC12(st, "local-names-build-shape", desc, fmt.Sprint(err1, err2), "entry.css and a runnable entry.js")
 			continue
 		}
 		var exports []map[string]string
 		if err := json.Unmarshal(out, &exports); err != nil || len(exports) != nfiles {
-			st.Fail("local-names-exports-shape", desc, string(out), "one export map per css module")
+			failC12(st, "local-names-exports-shape", desc, string(out), "one export map per css module")
 			continue
 		}
 		css := string(cssBytes)
@@ -137,19 +137,19 @@ func glueLocal(r *Rng, n int, st *Stats) {
 		for l, mk := range markerOf {
 			cls, ok := classOfMarker[mk]
 			if !ok {
-				st.Fail("local-names-rule-missing", desc, fmt.Sprintf("marker %d (.%s of file %d)", mk, l.name, l.file), "rule present in the emitted css")
+				failC12(st, "local-names-rule-missing", desc, fmt.Sprintf("marker %d (.%s of file %d)", mk, l.name, l.file), "rule present in the emitted css")
 				continue
 			}
 			exp := exports[l.file][l.name]
 			if exp != cls {
-				st.Fail("local-names-export-differs-from-css", desc, map[string]string{"exported": exp, "css": cls, "local": l.name}, "same name")
+				failC12(st, "local-names-export-differs-from-css", desc, map[string]string{"exported": exp, "css": cls, "local": l.name}, "same name")
 			}
 			if other, dup := seen[cls]; dup && other != l {
-				st.Fail("local-names-collision", desc, cls, "distinct names for distinct (file, local name)")
+				failC12(st, "local-names-collision", desc, cls, "distinct names for distinct (file, local name)")
 			}
 			seen[cls] = l
 			if globals[cls] {
-				st.Fail("local-names-collide-with-global", desc, cls, "a name different from every :global() class")
+				failC12(st, "local-names-collide-with-global", desc, cls, "a name different from every :global() class")
 			}
 		}
 	}
@@ -248,7 +248,7 @@ func glueLocalGlobal(r *Rng, n int, st *Stats) {
 		os.RemoveAll(dir)
 		var exports []map[string]string
 		if err1 != nil || err2 != nil || json.Unmarshal(out, &exports) != nil || len(exports) != len(files) {
-			st.Fail("local-global-build-shape", desc, fmt.Sprint(err1, err2, string(out)), "entry.css and one export map per file")
+			failC12(st, "local-global-build-shape", desc, fmt.Sprint(err1, err2, string(out)), "entry.css and one export map per file")
 			continue
 		}
 		// expected sheet: files in import order, local names replaced by what JS sees
@@ -276,7 +276,7 @@ func glueLocalGlobal(r *Rng, n int, st *Stats) {
 		desc["output"] = string(cssBytes)
 		desc["expected_inlined"] = exp.String()
 		if bad {
-			st.Fail("local-global-missing-export", desc, exports, "every local class exported")
+			failC12(st, "local-global-missing-export", desc, exports, "every local class exported")
 			continue
 		}
 		// DOM: one element per class name (global spelling and exported local spelling), each with a span child
@@ -291,7 +291,7 @@ func glueLocalGlobal(r *Rng, n int, st *Stats) {
 			for k, v := range detail {
 				desc[k] = v
 			}
-			st.Fail("local-global-cascade-winner-changed", desc, detail["output_winner"], detail["input_winner"])
+			failC12(st, "local-global-cascade-winner-changed", desc, detail["output_winner"], detail["input_winner"])
 		}
 	}
 }
